@@ -3,7 +3,7 @@ from vlib import Rng
 
 RULE = ("family fs: FilesystemHandler serving one file; sizes 0..12 exhaustively with every first-range spec with bounds in [-2,size+2] "
         "(x-y, x-, -n), malformed / multi-range / other-unit / large-number headers; block-boundary sizes 65535/65536/65537/131072/131073/"
-        "196608 in thorough; directory listings with names needing HTML escaping and with UTF-8 names (entries and the listed directory); non-trivial = distinct case. Copy-block sizes 1..size+1 "
+        "196608 in thorough; histories of 2-6 requests through ONE handler object (with / without / other-unit Range headers); directory listings with names needing HTML escaping and with UTF-8 names (entries and the listed directory); non-trivial = distinct case. Copy-block sizes 1..size+1 "
         "are covered by C14 (the handler's block size is fixed at 65536)")
 ASSUMPTIONS = ["suffix length 0 ('-0') is excluded; numbers above 2^31-1 may be answered with either form", "Content-Type (MIME detection) is ignored"]
 TRUSTED = ["composition of the Range model (C16) and the copier model (C14); QDir entry listing order is modelled"]
@@ -60,3 +60,15 @@ def cases(tier, seed, ctx=None):
     tree = [[b"root/d\xc3\xafr/k.txt", 0, b"c"], [b"root/\xe4\xb8\xad/sub/k", 0, b"c"]]
     for path, ents in ((b"d\xc3\xafr/", [[b"k.txt", 0]]), (b"d%C3%AFr", [[b"k.txt", 0]]), (b"\xe4\xb8\xad/", [[b"sub", 1]])):
         yield ("fs", [tree, b"@BASE@/root", path, [], ver, [8, 1, ents]], "listing-utf8-dir")
+
+    # several requests through ONE handler object: with and without Range headers, other units, different files
+    for j in range(30 if tier == "quick" else 400):
+        files = [(b"f.bin", rng.bytes(rng.range(1, 12))), (b"g.bin", rng.bytes(rng.range(0, 6)))]
+        tree = [[b"root/" + n, 0, cnt] for n, cnt in files]
+        reqs, metas = [], []
+        for _ in range(rng.range(2, 6)):
+            n, cnt = rng.choice(files)
+            sp = rng.choice([None, None, b"bytes=0-0", b"bytes=1-", b"bytes=-2", b"bytes=2-3", b"items=0-1", b"bytes=9-", b"", b"bytes=0-0,2-3"])
+            reqs.append([n, [] if sp is None else [[b"Range", sp]]])
+            metas.append([8, 0, cnt])
+        yield ("fsm", [tree, b"@BASE@/root", reqs, ver, metas], "one-handler-history")
